@@ -43,6 +43,82 @@ def gen_cases(ctx, impl, n_exec, n_any, n_text, n_bad):
     return cases
 
 
+PREAMBLE_FIXED = [
+    # the error cases listed in tests/test_parsing/test_text.py, and close variants that are accepted
+    ["# WRONG"], ["# APPID 0", "H 0", "#APPID 0"], ["# DEFINE args {0, 0"], ["# NETQASM"], ["# NETQASM 1 2"],
+    ["# APPID"], ["# APPID 1 2"], ["# DEFINE args"], ["# DEFINE args 0 0"], ["# DEFINE 1args 0"],
+    ["# DEFINE args 0", "# DEFINE args 1"],
+    ["# DEFINE args {0, 0}", "rot_x Q0 $args"], ["#"], ["##  NETQASM 1.0"], ["# NETQASM 1.0", "# NETQASM 2.0"],
+    ["# APPID x"], ["# NETQASM 1"], ["# NETQASM a.b"], ["# NETQASM 1.0.0"], [" #  APPID 3 // c", "set R0 1"],
+    ["# APPID 0", "# APPID 1"], ["# DEFINE a_b Q1", "# DEFINE a Q2", "set $a_b 1", "set $a 2"],
+    ["#NETQASM 0.0", "#APPID 7", "#DEFINE x {R1}", "set $x 1"], ["# DEFINE x {}", "set R0 1"],
+    ["// c", "", "# APPID 0", "", "set R0 1", "// end"], ["set R0 1", "# APPID 0"], ["# DEFINE x y z"],
+    ["# DEFINE _x 1"], ["# DEFINE x1 1", "# DEFINE x1 1"], ["# netqasm 1.0"], ["# APPID -1"], ["# NETQASM -1.0"],
+]
+
+
+def gen_preamble_text(rng):
+    frags = ["# NETQASM 1.0", "# APPID 0", "# APPID 12", "# NETQASM 0.3", "#  APPID   5", "# DEFINE q Q1", "# DEFINE q2 {Q2}",
+             "# DEFINE i R0", "# DEFINE q Q3", "# DEFINE 9x 1", "# DEFINE z", "# NETQASM", "# APPID 1 2", "# FOO 1", "#",
+             "# DEFINE s {1, 2}", "# DEFINE t {1, 2", "// comment", "", "   ", "# DEFINE m @1[R0:5]", "# APPID q", "# NETQASM 1",
+             "\t# APPID 0 // c"]
+    body = ["set R0 1", "set $q 1", "store $i @0[$i]", "jmp L", "L:", "wait_all $m", "set $q2 2", "qalloc $q", "ret_reg $i",
+            "# APPID 0"]
+    lines = [rng.choice(frags) for _ in range(rng.randint(0, 4))]
+    lines += [rng.choice(body) for _ in range(rng.randint(0, 3))]
+    if rng.random() < 0.1:
+        lines += [rng.choice(frags)]
+    return lines
+
+
+def front_stage(ctx, impl, cases, quick):
+    """character-level front end: Text.parse_text vs parse_text_protosubroutine on every generated text
+    (decorated, with macros, malformed) and on preambles; TextFront.print_proto vs the canonical rendering and
+    the real parser reading the canonical text back"""
+    rng = ctx.rng
+    texts = [c["lines"] for c in cases if c["lines"] is not None]
+    texts += [list(x) for x in PREAMBLE_FIXED]
+    texts += [gen_preamble_text(rng) for _ in range(300 if quick else 3000)]
+    fcases, n_unsup, n_rej = [], 0, 0
+    for lines in texts:
+        proto = impl.parse_front(lines)
+        if proto == "unsupported":
+            n_unsup += 1
+            continue
+        n_rej += proto is None
+        fcases.append(dict(lines=lines, proto=proto))
+        ctx.note_case(("front", json.dumps(lines)), nontrivial=len(lines) > 0)
+    kcases = []
+    progs = [c["prog"] for c in cases if c["lines"] is None and c["prog"]]
+    for _ in range(200 if quick else 2000):
+        progs.append(ag.gen_exec_prog(rng, max_len=8))
+    for prog in progs:
+        lines = ac.canonical_lines(prog)
+        back = impl.parse_front(lines)
+        kcases.append(dict(prog=prog, lines=lines, back=None if back == "unsupported" else back))
+        ctx.note_case(("canon", json.dumps(prog)), nontrivial=len(prog) > 0)
+    bad_f = ac.run_sharded(ctx, ac.write_fcase_file, {"vanilla": fcases}, 300, "front")
+    bad_k = ac.run_sharded(ctx, ac.write_kcase_file, {"vanilla": kcases}, 300, "canon")
+    n_nowf = sum(1 for code in bad_k.values() if code == 8)
+    bad_k = {k: code for k, code in bad_k.items() if code != 8}
+    ctx.coverage["front_end"] = dict(texts=len(fcases), rejected_by_implementation=n_rej, outside_model=n_unsup,
+                                     canonical_programs=len(kcases), without_canonical_text=n_nowf, parse_differences=len(bad_f),
+                                     canonical_differences=len(bad_k))
+    if bad_f:
+        first = fcases[sorted(bad_f)[0][1]]
+        ctx.broken.append(f"correspondence Text.parse_text vs parse_text_protosubroutine: {len(bad_f)} differing texts, "
+                          f"first: {json.dumps(first)[:600]}")
+    for (_, i), code in sorted(bad_k.items()):
+        k = kcases[i]
+        if code & 2:
+            ctx.violation("the real text front end does not read the canonical text of a proto-program back as that "
+                          "program", dict(flavour="vanilla", prog=k["prog"], lines=k["lines"], read_back=k["back"]), key=None)
+    rest = [(kcases[i], code) for (_, i), code in sorted(bad_k.items()) if not code & 2]
+    if rest:
+        ctx.broken.append(f"correspondence TextFront.print_proto / Text.parse_text on canonical texts: {len(rest)} "
+                          f"differing, first (code {rest[0][1]}): {json.dumps(rest[0][0])[:600]}")
+
+
 def run_impl(impl, c):
     """fill c['out'], c['obs'] from the real assembler / executor"""
     if c["lines"] is not None:
@@ -136,14 +212,17 @@ def run(ctx):
                        "harness/asm_common.py builds real ICmd/ProtoSubroutine objects and text, runs assemble_subroutine / "
                        "parse_text_subroutine and a step-bounded subclass of the real Executor (only _execute_command and "
                        "_handle_command_exception are wrapped, to count steps and record the faulting line)")
-    ctx.assume.append("modelled, validated by correspondence only: character-level tokenising, comment stripping, preamble "
-                      "and macro substitution (Text.parse_text); the theorems start at the proto-command level")
+    ctx.assume.append("the text front end is proved at character level for canonical texts of proto-programs, their "
+                      "decorations (comments, blank lines, indentation, trailing blanks) and whole-token macros; other "
+                      "spellings of a text (blanks inside bracket args, braces around define values, ...) are validated by the "
+                      "correspondence with parse_text_protosubroutine only")
     ctx.assume.append("the source semantics covers set add sub addm subm load store lea undef array jmp bez bnz beq bne blt "
                       "bge ret_reg ret_arr; other instructions are 'outside the model' (Stuck) in source and target alike; "
                       "well-formed sources use labels (not line numbers) as branch targets and registers as destinations")
     ctx.assume.append("executions start from the initial state of a fresh application; the theorem quantifies over all "
                       "start states")
     report(ctx, differing)
+    front_stage(ctx, impl, cases, quick)
     if ctx.broken and not ctx.violations:
         search(ctx, impl)
     ctx.finish()
